@@ -4,7 +4,7 @@
    in either order, an ellipsis marks a pack, ',' continues the list.
    Attributes and qualified / templated base names are outside this model.
    Tied to the code by the differential run of harness/props/c03.py. *)
-From Coq Require Import NArith List Bool.
+From Coq Require Import NArith List Bool Lia.
 Import ListNotations.
 From CXV Require Import Gen.TokTy Parse.Declarator Parse.DeclSpec.
 Open Scope N_scope.
@@ -88,14 +88,15 @@ Proof.
     reflexivity.
 Qed.
 
-Lemma bases_rt default : forall ws acc rest,
-  forallb access_ok ws = true -> ws <> [] -> after_bases_ok rest = true ->
-  bases (length ws) default acc (join_comma (map wbase_toks ws) ++ rest)
+Lemma bases_rt default : forall ws acc rest n,
+  forallb access_ok ws = true -> ws <> [] -> after_bases_ok rest = true -> (length ws <= n)%nat ->
+  bases n default acc (join_comma (map wbase_toks ws) ++ rest)
   = DOk (rev acc ++ map (resolve default) ws, rest).
 Proof.
-  induction ws as [|w q IH]; intros acc rest Hok Hne Hrest; [contradiction|].
+  induction ws as [|w q IH]; intros acc rest n Hok Hne Hrest Hn; [contradiction|].
   cbn [forallb] in Hok. apply andb_prop in Hok as [Hw Hq].
-  cbn [length bases].
+  destruct n as [|n]; [cbn [length] in Hn; lia|]. cbn [length] in Hn.
+  cbn [bases].
   destruct q as [|w2 q'].
   - cbn [map join_comma]. rewrite (base_mods_written default w rest Hw).
     change (is T_NAME (mkTk T_NAME (w_name w))) with true. cbn iota.
@@ -118,7 +119,7 @@ Proof.
     rewrite (base_mods_written default w _ Hw).
     change (is T_NAME (mkTk T_NAME (w_name w))) with true. cbn iota.
     change (wbase_toks w2 :: map wbase_toks q') with (map wbase_toks (w2 :: q')).
-    pose proof (IH (resolve default w :: acc) rest Hq ltac:(discriminate) Hrest) as HI.
+    pose proof (IH (resolve default w :: acc) rest n Hq ltac:(discriminate) Hrest ltac:(lia)) as HI.
     destruct (w_pack w) eqn:Ep; cbn [app].
     + change (is T_ELLIPSIS (ktok T_ELLIPSIS)) with true. cbn iota.
       change (is COMMA (ktok COMMA)) with true. cbn iota.
@@ -137,4 +138,85 @@ Qed.
 Theorem base_clause_roundtrip default ws rest :
   forallb access_ok ws = true -> ws <> [] -> after_bases_ok rest = true ->
   bases (length ws) default [] (join_comma (map wbase_toks ws) ++ rest) = DOk (map (resolve default) ws, rest).
-Proof. intros H1 H2 H3. exact (bases_rt default ws [] rest H1 H2 H3). Qed.
+Proof. intros H1 H2 H3. exact (bases_rt default ws [] rest (length ws) H1 H2 H3 (le_n _)). Qed.
+
+(* ------------------------------------------------------------------ *)
+(* the class head after the class name (CxxParser._parse_class_decl):
+   class-virt-specifiers `final` / `explicit` in any order, an optional base
+   clause, then the '{' that opens the body *)
+From CXV Require Import Parse.EnumList.
+
+Fixpoint virt_specs (final explicit : bool) (toks : list tk) : bool * bool * list tk :=
+  match toks with
+  | t :: r =>
+      if is T_final t then virt_specs true explicit r
+      else if is T_explicit t then virt_specs final true r
+      else (final, explicit, toks)
+  | [] => (final, explicit, toks)
+  end.
+
+Definition first_explicit (toks : list tk) : bool := match toks with t :: _ => is T_explicit t | [] => false end.
+
+Definition class_head (default : N) (toks : list tk) : dres (bool * bool * list base * list tk) :=
+  (* an `explicit` directly after the class name never gets here: the specifier loop of _parse_type takes it
+     (and the declaration is then rejected); only `final ... explicit` reaches this code *)
+  if first_explicit toks then DErr 4 else
+  let '(fi, ex, r) := virt_specs false false toks in
+  match r with
+  | t :: r1 =>
+      if is T_LIT_58 t then
+        match bases (length r1) default [] r1 with
+        | DOk (bs, r2) =>
+            match r2 with
+            | b :: r3 => if is LBRACE b then DOk (fi, ex, bs, r3) else DErr 1
+            | [] => DErr 2
+            end
+        | DErr e => DErr e
+        end
+      else if is LBRACE t then DOk (fi, ex, [], r1)
+      else DErr 1
+  | [] => DErr 2
+  end.
+
+Definition vs_toks (vs : list bool) : list tk := map (fun f : bool => ktok (if f then T_final else T_explicit)) vs.
+
+Lemma virt_specs_rt : forall vs fi ex X,
+  (match X with t :: _ => is T_final t = false /\ is T_explicit t = false | [] => True end) ->
+  virt_specs fi ex (vs_toks vs ++ X) = (fi || existsb (fun f => f) vs, ex || existsb negb vs, X).
+Proof.
+  induction vs as [|f q IH]; intros fi ex X HX.
+  - cbn [vs_toks map app existsb]. rewrite !orb_false_r. destruct X as [|t r]; [reflexivity|].
+    destruct HX as [H1 H2]. cbn [virt_specs]. now rewrite H1, H2.
+  - cbn [vs_toks map app virt_specs existsb]. destruct f.
+    + change (is T_final (ktok T_final)) with true. cbn iota. fold (vs_toks q). rewrite IH by exact HX.
+      cbn [negb]. destruct fi, ex, (existsb (fun f => f) q), (existsb negb q); reflexivity.
+    + change (is T_final (ktok T_explicit)) with false. change (is T_explicit (ktok T_explicit)) with true. cbn iota.
+      fold (vs_toks q). rewrite IH by exact HX. cbn [negb]. destruct fi, ex, (existsb (fun f => f) q), (existsb negb q); reflexivity.
+Qed.
+
+(* `Name [final|explicit]* [: bases] {` *)
+Theorem class_head_roundtrip default vs ws rest :
+  forallb access_ok ws = true -> (match vs with f :: _ => f = true | [] => True end) ->
+  class_head default (vs_toks vs ++ (match ws with [] => [] | _ => ktok T_LIT_58 :: join_comma (map wbase_toks ws) end) ++ ktok LBRACE :: rest)
+  = DOk (existsb (fun f => f) vs, existsb negb vs, map (resolve default) ws, rest).
+Proof.
+  intros Hok Hfirst. unfold class_head.
+  assert (Hfe : first_explicit (vs_toks vs ++ (match ws with [] => [] | _ => ktok T_LIT_58 :: join_comma (map wbase_toks ws) end) ++ ktok LBRACE :: rest) = false).
+  { destruct vs as [|f q]; [destruct ws; reflexivity|]. rewrite Hfirst. reflexivity. }
+  rewrite Hfe.
+  rewrite virt_specs_rt.
+  - cbn [orb]. destruct ws as [|w q].
+    + cbn [app map]. change (is T_LIT_58 (ktok LBRACE)) with false. change (is LBRACE (ktok LBRACE)) with true. cbn iota. reflexivity.
+    + cbn [app]. change (is T_LIT_58 (ktok T_LIT_58)) with true. cbn iota.
+      rewrite (bases_rt default (w :: q) [] (ktok LBRACE :: rest) _ Hok ltac:(discriminate) eq_refl).
+      * cbn [rev app]. change (is LBRACE (ktok LBRACE)) with true. cbn iota. reflexivity.
+      * rewrite app_length.
+        assert (L : forall l : list wbase, (length l <= length (join_comma (map wbase_toks l)) + 1)%nat).
+        { clear. induction l as [|x l IH]; [cbn; lia|].
+          destruct l as [|y l']; [cbn [map join_comma length]; lia|].
+          change (map wbase_toks (x :: y :: l')) with (wbase_toks x :: map wbase_toks (y :: l')).
+          change (join_comma (wbase_toks x :: map wbase_toks (y :: l'))) with (wbase_toks x ++ ktok COMMA :: join_comma (map wbase_toks (y :: l'))).
+          rewrite app_length. cbn [length] in *. lia. }
+        specialize (L (w :: q)). cbn [length] in *. lia.
+  - destruct ws; split; reflexivity.
+Qed.
